@@ -324,7 +324,10 @@ def run(rep: Report, prog: Program, tier: str) -> None:
         return (c.mimeType.lower(), c.clockRate, c.payloadType)
 
     scen = []
-    for vp8_pt, rtx_pt in ((96, 97), (97, 98), (100, 101), (126, 127), (127, 96), (127, 126), (110, 127)):
+    pt_pairs = [(96, 97), (97, 98), (100, 101), (126, 127), (127, 96), (127, 126), (110, 127)]
+    if tier == "thorough":
+        pt_pairs = [(a, b) for a in range(96, 128) for b in (96, 97, 111, 126, 127) if a != b]
+    for vp8_pt, rtx_pt in pt_pairs:
         remote = [
             mk(C, mimeType="video/VP8", clockRate=90000, payloadType=vp8_pt, rtcpFeedback=fb(("nack", None), ("ccm", "fir"))),
             mk(C, mimeType="video/rtx", clockRate=90000, payloadType=rtx_pt, parameters={"apt": vp8_pt}),
